@@ -364,7 +364,7 @@ class IndentationFitter(object):
         else:
             # Nothing found: select the middle value
             warnings.warn("Could not find correct plateau.", FitWarning)
-            labmax = 5
+            labmax = labelarray[labelarray.size // 2]
         # Determine the interval in the original array
         indices = np.where(labelarray == labmax)[0]
         if len(indices) == 1:
